@@ -282,6 +282,10 @@ class URLInfo(object):
             raise ValueError('Invalid IPv6 address: {}'
                              .format(ascii(hostname)))
 
+        if '%' in hostname:
+            raise ValueError('IPv6 zone identifier not supported: {}'
+                             .format(ascii(hostname)))
+
         hostname = ipaddress.IPv6Address(hostname[1:-1]).compressed
 
         return hostname
